@@ -281,7 +281,8 @@ impl Obj {
         for i in 0..nseg {
             let g = &self.segs[i];
             let (off, filesz) = match g.sec {
-                Some(si) if si < ranges.len() => (ranges[si].0, if self.secs[si].sh_type == SHT_NOBITS { 0 } else { ranges[si].1 }),
+                // a segment tied to a section covers it entirely, or — when `filesz` is set — only its first `filesz` bytes
+                Some(si) if si < ranges.len() => (ranges[si].0, if self.secs[si].sh_type == SHT_NOBITS { 0 } else if g.filesz != 0 { g.filesz.min(ranges[si].1) } else { ranges[si].1 }),
                 _ => (g.offset, g.filesz),
             };
             let memsz = if g.memsz == u64::MAX { filesz } else { g.memsz };
@@ -378,6 +379,32 @@ pub fn build_sysv_hash(le: bool, nbucket: u32, names: &[Vec<u8>]) -> Vec<u8> {
             chain[i as usize] = bucket[b];
             bucket[b] = i;
         }
+    }
+    let mut out = vec![];
+    put(&mut out, le, 4, nbucket as u64);
+    put(&mut out, le, 4, n as u64);
+    for v in bucket { put(&mut out, le, 4, v as u64); }
+    for v in chain { put(&mut out, le, 4, v as u64); }
+    out
+}
+
+/// `.hash` with each bucket's chain threaded in a given order: `order = 0` as `build_sysv_hash` (newest
+/// first, indexes descend along a chain — what ld emits), `1` ascending, `2` the order given by `perm`
+/// (any permutation: the gABI puts no constraint on the order of a chain).
+pub fn build_sysv_hash_ordered(le: bool, nbucket: u32, names: &[Vec<u8>], order: u8, perm: &[usize]) -> Vec<u8> {
+    let n = names.len();
+    let mut lists: Vec<Vec<usize>> = vec![vec![]; nbucket as usize];
+    if nbucket > 0 {
+        let idxs: Vec<usize> = match order { 0 => (1..n).rev().collect(), 1 => (1..n).collect(), _ => perm.iter().copied().filter(|i| *i >= 1 && *i < n).collect() };
+        for i in idxs {
+            lists[(ref_sysv_hash(&names[i]) % nbucket) as usize].push(i);
+        }
+    }
+    let mut bucket = vec![0u32; nbucket as usize];
+    let mut chain = vec![0u32; n];
+    for (b, l) in lists.iter().enumerate() {
+        if let Some(f) = l.first() { bucket[b] = *f as u32; }
+        for w in l.windows(2) { chain[w[0]] = w[1] as u32; }
     }
     let mut out = vec![];
     put(&mut out, le, 4, nbucket as u64);
